@@ -23,6 +23,8 @@ pub fn clusters_from_sparse(mut indices: HashSet<(i32, i32, i32)>) -> Vec<Vec<(i
     let mut results = Vec::new();
 
     while !indices.is_empty() {
+        #[cfg(feature = "verif")]
+        crate::verif::tick();
         let mut working = Vec::new();
         let mut to_visit = Vec::new();
 
